@@ -97,6 +97,32 @@ fn any_code_not_blocked() -> u32 {
     c
 }
 
+/// Representation invariant of a live operation (checked after every step): whenever some task's ledger holds an entry
+/// for the operation's waitable, the entry points at THIS operation's completion slot, no other task holds one, and —
+/// for a version-2 task, where the operation keeps a cloned handle — the operation's own record says it is registered
+/// with exactly that task (otherwise its destructor / a later move would not unregister it).
+fn inv<S: WaitableOp>(op: &WaitableOperation<S>) {
+    use super::super::waitable::verif_peek as peek;
+    let slot = peek::completion_slot(op);
+    let (has_task, task_ptr, believes) = peek::task_view(op);
+    let mut t = 0;
+    let mut holders = 0;
+    while t < host::NTASK {
+        if let Some(e) = host::entry_of(t, W) {
+            holders += 1;
+            vassert!(e.ptr as usize == slot, "C18: a task holds a pointer that is not this operation's completion slot");
+            if has_task {
+                vassert!(task_ptr == t + 1 && believes == Some(W), "C18: registered with a task the operation does not record as registered (it would never be unregistered)");
+            }
+        }
+        t += 1;
+    }
+    vassert!(holders <= 1, "C18: registered with more than one task at once");
+    if peek::code_pending(op) {
+        vassert!(holders == 0, "C18: a delivered completion removes the registration");
+    }
+}
+
 /// Common post-condition of every scenario once the operation value is gone.
 fn assert_nothing_registered_anywhere() {
     vassert!(host::total_registrations() == 0, "C18: a pointer to freed operation state is still registered with a task");
@@ -124,6 +150,7 @@ fn c18_poll_from_start() {
         let mut cx = Context::from_waker(&waker);
         let mut op = core::pin::pin!(WaitableOperation::new(MockOp, 5));
         let r = op.as_mut().poll_complete(&mut cx);
+        inv(&op);
         vassert!(log().starts == 1);
         if start_code != BLOCKED {
             vassert!(r == Poll::Ready(start_code));
@@ -160,8 +187,10 @@ fn c18_repoll_keeps_single_registration() {
         let mut cx = Context::from_waker(&waker);
         let mut op = core::pin::pin!(WaitableOperation::new(MockOp, 5));
         vassert!(op.as_mut().poll_complete(&mut cx).is_pending());
+        inv(&op);
         let p1 = host::entry_of(0, W).unwrap().ptr;
         vassert!(op.as_mut().poll_complete(&mut cx).is_pending());
+        inv(&op);
         let p2 = host::entry_of(0, W).unwrap().ptr;
         vassert!(p1 == p2, "C18: re-registration must reuse the same completion slot");
         vassert!(host::registrations(W) == 1 && host::total_registrations() == 1);
@@ -185,7 +214,9 @@ fn c18_delivery_exactly_once() {
         let mut cx = Context::from_waker(&waker);
         let mut op = core::pin::pin!(WaitableOperation::new(MockOp, 5));
         vassert!(op.as_mut().poll_complete(&mut cx).is_pending());
+        inv(&op);
         vassert!(unsafe { host::deliver(0, W, code) });
+        inv(&op);
         vassert!(host::wakes() == 1, "C18: a delivered completion wakes the waiting future exactly once");
         vassert!(host::total_registrations() == 0);
         let before = log().updates;
@@ -201,6 +232,7 @@ fn c18_delivery_exactly_once() {
             // a second poll with nothing delivered processes nothing
             let b2 = log().updates;
             vassert!(op.as_mut().poll_complete(&mut cx).is_pending());
+            inv(&op);
             vassert!(log().updates == b2, "C18: one delivery, one processing");
         }
         vassert!(host::wakes() == 1);
@@ -231,12 +263,15 @@ fn c18_cancel_from_every_state() {
         // 2: polled, blocked, a code was delivered but not yet processed.  3: as 1 but polled twice.
         if state >= 1 {
             vassert!(op.as_mut().poll_complete(&mut cx).is_pending());
+            inv(&op);
         }
         if state == 2 {
             vassert!(unsafe { host::deliver(0, W, delivered) });
+            inv(&op);
         }
         if state == 3 {
             vassert!(op.as_mut().poll_complete(&mut cx).is_pending());
+            inv(&op);
         }
         let (was_result, v) = op.as_mut().cancel();
         vassert!(op.is_done());
@@ -273,10 +308,12 @@ fn drop_scenario(v2: bool, state: u8, delivered: u32) {
         }
         if state == 2 {
             vassert!(unsafe { host::deliver(0, W, delivered) });
+            inv(&op);
         }
         if state == 3 {
             // completed by polling after delivery
             vassert!(unsafe { host::deliver(0, W, delivered) });
+            inv(&op);
             let _ = op.as_mut().poll_complete(&mut cx);
         }
     }
@@ -335,22 +372,27 @@ fn c18_cross_task_move() {
             let mut op = core::pin::pin!(WaitableOperation::new(MockOp, 5));
             host::enter_task(&mut task_a);
             vassert!(op.as_mut().poll_complete(&mut cx).is_pending());
+            inv(&op);
             vassert!(host::entry_of(0, W).is_some() && host::entry_of(1, W).is_none());
             if partial_in_a {
                 // partial progress: task A delivers a non-final status, the operation is polled again under A and
                 // re-registers with the task it already holds; only then does it move
                 vassert!(unsafe { host::deliver(0, W, BLOCKED) });
+                inv(&op);
                 vassert!(host::entry_of(0, W).is_none());
                 vassert!(op.as_mut().poll_complete(&mut cx).is_pending());
+                inv(&op);
                 vassert!(host::entry_of(0, W).is_some() && host::registrations(W) == 1, "C18: still waiting after partial progress => registered again");
             }
             host::enter_task(&mut task_b);
             vassert!(op.as_mut().poll_complete(&mut cx).is_pending());
+            inv(&op);
             vassert!(host::entry_of(0, W).is_none(), "C18: moving to another task must unregister from the previous one");
             vassert!(host::entry_of(1, W).is_some());
             vassert!(host::registrations(W) == 1);
             if deliver_in_b {
                 vassert!(unsafe { host::deliver(1, W, delivered) });
+                inv(&op);
             }
             match drop_under {
                 0 => host::enter_task(&mut task_a),
@@ -379,6 +421,7 @@ fn c18_v1_task_never_cloned() {
         {
             let mut op = core::pin::pin!(WaitableOperation::new(MockOp, 5));
             vassert!(op.as_mut().poll_complete(&mut cx).is_pending());
+            inv(&op);
             vassert!(h().tasks[0].clones == 0, "C18: a version-1 task has no clone callback");
         }
         vassert!(h().tasks[0].clones == 0 && h().tasks[0].drops == 0);
